@@ -38,3 +38,83 @@ package cmd
 //@ ensures[C20] forward_headers_default: err == nil && !flagChanged(flagsOf(ref(cmd)), "forward-headers") ==> c.args.TargetOptions.ForwardHeaders == !c.args.ServiceOptions.TLSEnabled
 //@ ensures[C20] explicit_forward_headers_kept: flagChanged(flagsOf(ref(cmd)), "forward-headers") ==> c.args.TargetOptions.ForwardHeaders == old(c.args.TargetOptions.ForwardHeaders)
 //@ ensures[C20] accepted_otherwise: !(flagChanged(flagsOf(ref(cmd)), "max-request-body") && !flagChanged(flagsOf(ref(cmd)), "buffer-requests")) && !(flagChanged(flagsOf(ref(cmd)), "max-response-body") && !flagChanged(flagsOf(ref(cmd)), "buffer-responses")) && !old(c.args.ServiceOptions.TLSEnabled) ==> err == nil
+
+//@ func (*cmd.pauseCommand).run
+//@ attr inline = cmd.withRPCClient
+//@ attr blocks
+//@ requires len(args) > 0
+//@ assigns *
+//@ may_emit *
+//@ ensures[C20] one_call_to_the_matching_rpc: count(RpcCall(_, _, _)) <= 1 && all(RpcCall, $1 == "kamal-proxy.Pause") && count(RpcDial(_, _)) == 1
+//@ ensures[C20] fails_exactly_when_the_proxy_reports_an_error: all(RpcCall, $2 == (result == nil)) && (none(RpcCall) ==> result != nil)
+//@ ensures[C20] connection_closed: emitted(RpcCall(_, _, _)) ==> count(RpcClose(_)) == 1
+
+//@ func (*cmd.removeCommand).run
+//@ attr inline = cmd.withRPCClient
+//@ attr blocks
+//@ requires len(args) > 0
+//@ assigns *
+//@ may_emit *
+//@ ensures[C20] one_call_to_the_matching_rpc: count(RpcCall(_, _, _)) <= 1 && all(RpcCall, $1 == "kamal-proxy.Remove") && count(RpcDial(_, _)) == 1
+//@ ensures[C20] fails_exactly_when_the_proxy_reports_an_error: all(RpcCall, $2 == (result == nil)) && (none(RpcCall) ==> result != nil)
+//@ ensures[C20] connection_closed: emitted(RpcCall(_, _, _)) ==> count(RpcClose(_)) == 1
+
+//@ func (*cmd.resumeCommand).run
+//@ attr inline = cmd.withRPCClient
+//@ attr blocks
+//@ requires len(args) > 0
+//@ assigns *
+//@ may_emit *
+//@ ensures[C20] one_call_to_the_matching_rpc: count(RpcCall(_, _, _)) <= 1 && all(RpcCall, $1 == "kamal-proxy.Resume") && count(RpcDial(_, _)) == 1
+//@ ensures[C20] fails_exactly_when_the_proxy_reports_an_error: all(RpcCall, $2 == (result == nil)) && (none(RpcCall) ==> result != nil)
+//@ ensures[C20] connection_closed: emitted(RpcCall(_, _, _)) ==> count(RpcClose(_)) == 1
+
+//@ func (*cmd.rolloutDeployCommand).run
+//@ attr inline = cmd.withRPCClient
+//@ attr blocks
+//@ requires len(args) > 0
+//@ assigns *
+//@ may_emit *
+//@ ensures[C20] one_call_to_the_matching_rpc: count(RpcCall(_, _, _)) <= 1 && all(RpcCall, $1 == "kamal-proxy.RolloutDeploy") && count(RpcDial(_, _)) == 1
+//@ ensures[C20] fails_exactly_when_the_proxy_reports_an_error: all(RpcCall, $2 == (result == nil)) && (none(RpcCall) ==> result != nil)
+//@ ensures[C20] connection_closed: emitted(RpcCall(_, _, _)) ==> count(RpcClose(_)) == 1
+
+//@ func (*cmd.rolloutSetCommand).run
+//@ attr inline = cmd.withRPCClient
+//@ attr blocks
+//@ requires len(args) > 0
+//@ assigns *
+//@ may_emit *
+//@ ensures[C20] one_call_to_the_matching_rpc: count(RpcCall(_, _, _)) <= 1 && all(RpcCall, $1 == "kamal-proxy.RolloutSet") && count(RpcDial(_, _)) == 1
+//@ ensures[C20] fails_exactly_when_the_proxy_reports_an_error: all(RpcCall, $2 == (result == nil)) && (none(RpcCall) ==> result != nil)
+//@ ensures[C20] connection_closed: emitted(RpcCall(_, _, _)) ==> count(RpcClose(_)) == 1
+
+//@ func (*cmd.rolloutStopCommand).run
+//@ attr inline = cmd.withRPCClient
+//@ attr blocks
+//@ requires len(args) > 0
+//@ assigns *
+//@ may_emit *
+//@ ensures[C20] one_call_to_the_matching_rpc: count(RpcCall(_, _, _)) <= 1 && all(RpcCall, $1 == "kamal-proxy.RolloutStop") && count(RpcDial(_, _)) == 1
+//@ ensures[C20] fails_exactly_when_the_proxy_reports_an_error: all(RpcCall, $2 == (result == nil)) && (none(RpcCall) ==> result != nil)
+//@ ensures[C20] connection_closed: emitted(RpcCall(_, _, _)) ==> count(RpcClose(_)) == 1
+
+//@ func (*cmd.stopCommand).run
+//@ attr inline = cmd.withRPCClient
+//@ attr blocks
+//@ requires len(args) > 0
+//@ assigns *
+//@ may_emit *
+//@ ensures[C20] one_call_to_the_matching_rpc: count(RpcCall(_, _, _)) <= 1 && all(RpcCall, $1 == "kamal-proxy.Stop") && count(RpcDial(_, _)) == 1
+//@ ensures[C20] fails_exactly_when_the_proxy_reports_an_error: all(RpcCall, $2 == (result == nil)) && (none(RpcCall) ==> result != nil)
+//@ ensures[C20] connection_closed: emitted(RpcCall(_, _, _)) ==> count(RpcClose(_)) == 1
+
+//@ func (*cmd.deployCommand).run
+//@ attr inline = cmd.withRPCClient
+//@ attr blocks
+//@ requires len(args) > 0
+//@ assigns *
+//@ may_emit *
+//@ ensures[C20] one_call_to_the_matching_rpc: count(RpcCall(_, _, _)) <= 1 && all(RpcCall, $1 == "kamal-proxy.Deploy") && count(RpcDial(_, _)) == 1
+//@ ensures[C20] fails_exactly_when_the_proxy_reports_an_error: all(RpcCall, $2 == (result == nil)) && (none(RpcCall) ==> result != nil)
+//@ ensures[C20] connection_closed: emitted(RpcCall(_, _, _)) ==> count(RpcClose(_)) == 1
